@@ -203,6 +203,11 @@ structure SsCfg where
   dec0 : Nat
   dec1 : Nat
   fees : Fees
+  /-- asset kinds: `true` = cw20 token, `false` = native coin (the default). The only places where the kind is
+      observable: the bank refuses a zero-amount coin (as attached funds and as a `BankMsg::Send`), cw20-base 1.1
+      accepts a zero-amount `Send` / `Transfer` -/
+  cw0 : Bool := false
+  cw1 : Bool := false
 deriving Repr, DecidableEq
 
 structure SsUser where
@@ -285,7 +290,8 @@ def ssSwapOp (cfg : SsCfg) (s : SsSt) (u dir off : Nat) : Res SsSt := do
   let usr := s.user u
   guardErr (decide (u < s.users.length))
   guardErr (decide (dir ≤ 1))
-  guardErr (decide (off ≠ 0))
+  -- a native offer travels as funds: the bank refuses a zero coin; a cw20 `Send` of zero reaches the hook
+  guardErr (decide (off ≠ 0) || (if dir = 0 then cfg.cw0 else cfg.cw1))
   guardErr (decide (off ≤ (if dir = 0 then usr.a else usr.b)))
   let p0 ← csub s.bal0 s.pend0
   let p1 ← csub s.bal1 s.pend1
@@ -305,7 +311,7 @@ def ssSwapOp (cfg : SsCfg) (s : SsSt) (u dir off : Nat) : Res SsSt := do
             { usr with b := usr.b - off, a := usr.a + c.ret })
 
 /-- `withdraw_liquidity` through the LP token's `Send` hook -/
-def ssWithdraw (s : SsSt) (u amt : Nat) : Res SsSt := do
+def ssWithdraw (cfg : SsCfg) (s : SsSt) (u amt : Nat) : Res SsSt := do
   let usr := s.user u
   guardErr (decide (u < s.users.length))
   -- (cw20-base 1.1 accepts a zero-amount `Send`; the zero refunds below are what fails)
@@ -315,8 +321,8 @@ def ssWithdraw (s : SsSt) (u amt : Nat) : Res SsSt := do
   let ratio ← dec128FromRatio amt s.sup
   let x0 ← u128MulDec p0 ratio
   let x1 ← u128MulDec p1 ratio
-  -- the bank rejects a zero-amount send
-  guardErr (decide (x0 ≠ 0 ∧ x1 ≠ 0))
+  -- the bank rejects a zero-amount send; a cw20 transfer of zero goes through
+  guardErr ((decide (x0 ≠ 0) || cfg.cw0) && (decide (x1 ≠ 0) || cfg.cw1))
   pure ({ s with bal0 := s.bal0 - x0, bal1 := s.bal1 - x1, sup := s.sup - amt }.setUser u
           { a := usr.a + x0, b := usr.b + x1, lp := usr.lp - amt })
 
@@ -337,7 +343,7 @@ def ssCollect (s : SsSt) : Res SsSt := do
 def ssStep (cfg : SsCfg) (s : SsSt) : SsOp → Res SsSt
   | .provide u d0 d1 => ssProvide cfg s u d0 d1
   | .swap u dir off => ssSwapOp cfg s u dir off
-  | .withdraw u amt => ssWithdraw s u amt
+  | .withdraw u amt => ssWithdraw cfg s u amt
   | .collect => ssCollect s
 
 /-- run a history; a failed operation leaves the state untouched -/
